@@ -16,6 +16,13 @@ from nbformat import NotebookNode
 
 B64 = 'iVBORw0KGgoAAAANSUhEUgAAAAEAAAABCAYAAAAfFcSJAAAADUlEQVR42mNkYPhfDwAChwGA60e6kgAAAABJRU5ErkJggg=='
 B64_2 = 'R0lGODlhAQABAIAAAAAAAP///yH5BAEAAAAALAAAAAABAAEAAAIBRAA7R0lGODlhAQABAIAAAAAAAP///yH5BAEAAAAALAAAAAAB'
+B64_3 = 'iVBORw0KGgoAAAANSUhEUgAAAAEAAAABCAIAAACQd1PeAAAADElEQVR4nGPgOiEHAAHQAPEkXJH0AAAAAElFTkSuQmCC'      # a third 1x1 image
+
+
+def other_image(cur, rnd):
+    "an image payload different from `cur` (two sides replacing the same image usually pick different ones)"
+    flat = (cur or '').replace('\n', '')
+    return rnd.choice([v for v in (B64, B64_2, B64_3) if v != flat])
 
 SOURCES = [
     '', 'x = 1\n', 'x = 1\ny = 2\n', 'import os\nimport sys\n\nprint(os.getcwd())\n',
@@ -389,7 +396,7 @@ def apply_edit(nb, op, rnd, where=None):
                         o['data']['application/json'] += 1          # a different number (never a Python-equal one: finding C02-pyeq)
                     u = rnd.random()
                     if 'image/png' in o['data'] and u < 0.4:
-                        o['data']['image/png'] = B64_2 if o['data']['image/png'].replace('\n', '') == B64 else B64
+                        o['data']['image/png'] = other_image(o['data']['image/png'], rnd)
                     elif 'image/png' in o['data'] and u < 0.8:
                         # the same payload written differently: a trailing newline, or wrapped into lines (another front end saved it)
                         o['data']['image/png'] = rewrapped(o['data']['image/png'], rnd)
@@ -419,7 +426,7 @@ def apply_edit(nb, op, rnd, where=None):
                     att[k] = nbformat.from_dict({'image/gif': cur[:30] + ('B' if cur[30] != 'B' else 'C') + cur[31:]})
                 elif r < 0.3 and att:
                     k = sorted(att)[0]
-                    att[k] = nbformat.from_dict({'image/png': B64_2 if att[k].get('image/png') == B64 else B64})
+                    att[k] = nbformat.from_dict({'image/png': other_image(att[k].get('image/png'), rnd)})
                 elif r < 0.45 and att and 'image/png' in att[sorted(att)[0]]:
                     k = sorted(att)[0]
                     att[k] = nbformat.from_dict({'image/png': rewrapped(att[k]['image/png'], rnd)})
@@ -510,6 +517,11 @@ def triples(seed, count, maxcells=3, minors=(5, 4, 2), max_edits=2, ops=None):
             if t is not None:
                 yield t
                 continue
+        if ops is None and u < 0.81:
+            t = attachment_conflict_triple(b, rnd)
+            if t is not None:
+                yield t
+                continue
         common = b
         if rnd.random() < 0.3:
             # changes made identically on both sides (agreement), e.g. the same cell inserted by both
@@ -591,6 +603,31 @@ def concurrent_tags_triple(b, rnd):
         lt, rt = rt, lt
     l['cells'][i]['metadata']['tags'] = lt
     r['cells'][i]['metadata']['tags'] = rt
+    return base, l, r
+
+
+def attachment_conflict_triple(b, rnd):
+    "both sides replace the same attached image of a markdown cell by different images (or one replaces it, the other removes it)"
+    cand = [i for i, c in enumerate(b['cells']) if c['cell_type'] == 'markdown' and c.get('attachments')]
+    base = copy.deepcopy(b)
+    if not cand:
+        if not base['cells']:
+            return None
+        i = rnd.randrange(len(base['cells']))
+        base['cells'][i] = nbformat.from_dict(dict(md_cell('![plot](attachment:plot.png)\n\ncaption\n', {'plot.png': {'image/png': B64}}), **({'id': base['cells'][i]['id']} if 'id' in base['cells'][i] else {})))
+    else:
+        i = rnd.choice(cand)
+    l, r = copy.deepcopy(base), copy.deepcopy(base)
+    name = sorted(base['cells'][i]['attachments'])[0]
+    cur = base['cells'][i]['attachments'][name].get('image/png')
+    imgs = [v for v in (B64, B64_2, B64_3) if v != cur]
+    l['cells'][i]['attachments'][name] = nbformat.from_dict({'image/png': imgs[0]})
+    if rnd.random() < 0.75:
+        r['cells'][i]['attachments'][name] = nbformat.from_dict({'image/png': imgs[1]})
+    else:
+        del r['cells'][i]['attachments'][name]
+    if rnd.random() < 0.5:
+        l, r = r, l
     return base, l, r
 
 
